@@ -1571,7 +1571,7 @@ static bool build_prog(const Desc& d, PB& b) {
       b.bind(lh);
       call(b, 2, L);
       b.slot(1);
-      b.I(O_ADDI, S, -1, -1, 1);
+      b.I(O_LEA, S, S, F, 1, 0);                                               // needs the value in a register (an add would be done in memory)
       b.slot(2);
       if (d.x & 1) { b.I(O_ADDI, ctr, -1, -1, -1); b.br(O_JZ, ctr, lx); b.I(O_ADDI, t, -1, -1, 5); b.jmp(lh); b.bind(lx); }
       else b.br(O_DECJNZ, ctr, lh);
@@ -1924,9 +1924,9 @@ int main(int argc, char** argv) {
     if (!g_stop) enumerate(sw2, 1, {SH_SWAPLOOP2});
     // single-block loop (a block that branches to itself) with a call before the loop and a call in the body
     std::vector<Config> sl;
-    for (int x : {0, 1}) for (int vm : {0, 6, 5}) for (int K : {4, 3, 0}) for (int n : {3, 4, 6}) {
-      if (!c.thorough() && (x || K == 0 || n != 3 || vm == 5)) continue;
-      Config cf{K, n, 6, vm}; cf.x = x; if (!c.thorough()) cf.pats = 0x01; sl.push_back(cf);
+    for (int x : {0, 1}) for (int vm : {0, 6, 5}) for (int K : {0, 4, 3}) for (int n : {3, 4, 6}) {
+      if (!c.thorough() && (x || n != 3 || K == 3 || (K == 4 && vm != 0))) continue;
+      Config cf{K, n, 6, vm}; cf.x = x; sl.push_back(cf);
     }
     if (!g_stop) enumerate(sl, 1, {SH_SELFLOOP});
     // a value that is live only around a back edge and whose liveness bit is in the upper half of a bit word (33..64 multi-block registers)
@@ -1951,7 +1951,7 @@ int main(int argc, char** argv) {
   c.n("transitions") = c.n("traces");
   for (auto& kv : g_shape_count) c.n(("shape_" + kv.first).c_str()) = kv.second;
   c.strs["bound"] = bound + (g_stop ? " (capped by the deadline)" : "");
-  c.strs["rule"] = "programs = arch{x64 native, x86-32 simulated, AArch64 simulated} x shape{straight,diamond,loop,nested-loop,loop-cond,irreducible,jumptable3,jumptable2,call-mid,call-loop,two-calls,loop-local-early,loop-local-late (a value live only around the back edge),swap-loop (fixed-register instructions force a register exchange at the back edge),swap-loop-reload (shifts by two variable counts and a value re-defined in the loop: exchange of a clean and a dirty register at the back edge),two-jumptables (two annotated indirect jumps into one set of 2-3 targets with different live-in sets, a call before the second jump, both annotation orders),call-args (argument marshalling: typed 8/16/32/64-bit register x wider parameter x register/stack position),many-args (16 arguments, 32-byte aligned stack variable, call with stack arguments; also int16_t arguments in 32-bit registers)} x register file K x pressure x "
+  c.strs["rule"] = "programs = arch{x64 native, x86-32 simulated, AArch64 simulated} x shape{straight,diamond,loop,nested-loop,loop-cond,irreducible,jumptable3,jumptable2,call-mid,call-loop,two-calls,loop-local-early,loop-local-late (a value live only around the back edge),swap-loop (fixed-register instructions force a register exchange at the back edge),swap-loop-reload (shifts by two variable counts and a value re-defined in the loop: exchange of a clean and a dirty register at the back edge),self-loop-call (a block that branches to itself with a call before the loop and a call in the body; a loop-carried value that is clean on entry, spilled by the call, then modified; 3 iterations; also the jmp / exit-in-the-middle form),two-jumptables (two annotated indirect jumps into one set of 2-3 targets with different live-in sets, a call before the second jump, both annotation orders),call-args (argument marshalling: typed 8/16/32/64-bit register x wider parameter x register/stack position),many-args (16 arguments, 32-byte aligned stack variable, call with stack arguments; also int16_t arguments in 32-bit registers)} x register file K x pressure x "
                    "argument mode x value mode{gp64, xmm, ymm, zmm, k-mask, gp32, mixed gp64/gp32} x slot fillings (alphabet of " + std::to_string(kAlphaCount) + " instruction forms x operand pattern{first/second/last/same-twice}); every program is built with the Compiler and allocated; "
                    "x64: assembled and executed natively on 4 data tuples x every control input (branch both ways, loops 0/1/3 trips, every jump-table target); x86-32/AArch64: the allocated node list is interpreted by engine/msim.h on the same inputs; "
                    "compared with the direct interpretation of the IR: return value, memory buffer (+ guards / any store outside buffer and stack), external-call log; callee-saved registers and stack pointer preserved; "
